@@ -52,11 +52,28 @@ def check_after_abort(spec: dict) -> core.CaseResult:
     return dagprop.result(obs, findings, binding and obs.second is not None, labels, prop='C04')
 
 
+def cpu_default_spec():
+    """max_workers left at its default (the number of CPUs) with more simultaneously ready tasks than that."""
+    from hypothesis import strategies as st
+
+    @st.composite
+    def gen(draw):
+        n = dagprop.CPU + draw(st.integers(1, 5))
+        nodes = [{'id': i, 'type': draw(st.sampled_from(['NN', 'Z', 'NN', 'N'])), 'name': f'n{i}', 'mode': 'ok', 'read': True, 'payload': i, 'deps': {'s': None}}
+                 for i in range(n)]
+        lab = {'backend': 'fork', 'max_workers': None, 'continue_on_failure': True, 'bust_cache': False,
+               'storage': draw(st.sampled_from(['none', 'local'])), 'displays': False, 'context': {}}
+        return {'nodes': nodes, 'requested': [{'ref': i, 'fresh': False} for i in range(n)], 'lab': lab, 'pre_cached': [],
+                'schedule': draw(st.lists(st.integers(0, 7), max_size=10)), 'gated': True}
+    return gen()
+
+
 def plan(tier: str) -> list[dict]:
     q = tier == 'quick'
     jobs = list(dagprop.std_plan(tier, controlled=(10, 150, 2500), serial=(1, 40, 800), fork=(0, 0, 0), spawn=(0, 0, 0),
                             gated_fork=(4, 12, 400), gated_spawn=(1, 3, 60)))
     jobs += [{'engine': 'executor-machine', 'n': 12 if q else 400, 'steps': 14 if q else 30, 'hashseed': i} for i in range(2)]
+    jobs += [{'engine': 'fork+gated:cpu-default', 'n': 2 if q else 30, 'hashseed': 7}]
     jobs += [{'engine': 'after-abort:controlled', 'n': 80 if q else 2500, 'hashseed': 5}, {'engine': 'after-abort:fork', 'n': 6 if q else 200, 'hashseed': 6}]
     return jobs
 
@@ -76,6 +93,9 @@ def run_job(rec: core.Recorder, job: dict, seed: int) -> None:
     if job['engine'] == 'executor-machine':
         from pbt import execmachine
         execmachine.run_machines(rec, 'executor-machine', 'C04:', job['n'], job['steps'], seed)
+        return
+    if job['engine'] == 'fork+gated:cpu-default':
+        core.run_hypothesis(rec, job['engine'], cpu_default_spec(), check, max_examples=job['n'], seed=seed, shrink=False)
         return
     if job['engine'].startswith('after-abort:'):
         from pbt.props import c05
